@@ -2,7 +2,7 @@
     reference vs observed geth) and the property predicate [Pb] on the observed trace. *)
 From Coq Require Import ZArith List Bool.
 Import ListNotations.
-Require Import Nib.C03.Model Nib.C03.Ref Nib.C03.Spec Nib.C03.Msg.
+Require Import Nib.C03.Model Nib.C03.Ref Nib.C03.Spec Nib.C03.Msg Nib.C03.Precompiles.
 Require Nib.Gen.C03Facts.
 Local Open Scope Z_scope.
 
@@ -10,7 +10,10 @@ Record prog_case := {
   pc_quot : Z;        (* params.RefundQuotientEIP3529 as linked into the binary *)
   pc_refund : Z;      (* StateDB refund counter after execution *)
   pc_used_pre : Z;    (* intrinsic gas + gas used by the top frame, before the refund; -1 = unknown *)
-  pc_nib : prog_obs; pc_geth : prog_obs
+  pc_nib : prog_obs; pc_geth : prog_obs;
+  (* a message sent straight to MODEXP (0x05): intrinsic gas, base / exponent / modulus length, bit
+     length of the first 32 bytes of the exponent *)
+  pc_modexp : option (Z * Z * Z * Z * Z)
 }.
 
 (** driver (c): a history of messages; [mc_hdrs] = the header of every message as the driver built
@@ -68,7 +71,22 @@ Definition mismatch_seq (c : trace) : bool :=
                           (norm_all (t_txs c) (t_geth c)))).
 
 (** the refund arithmetic of ApplyEvmMsg as modelled by [gas_to_refund] *)
+(** the price of the standard MODEXP precompile under the upstream table InitPrecompiles copies (the
+    table is re-extracted from the source): a successful message straight to 0x05 uses exactly
+    intrinsic gas + [modexp_gas table] *)
+Definition mismatch_modexp (p : prog_case) : bool :=
+  match pc_modexp p with
+  | None => false
+  | Some (intr, bl, el, ml, hb) =>
+    if p_rej (pc_nib p) || (pc_used_pre p <? 0) || negb (p_err (pc_nib p) =? 0) then false
+    else match table_of_names Nib.Gen.C03Facts.c03_std_precompile_tables with
+         | Some t => negb (pc_used_pre p =? intr + modexp_gas t bl el ml hb)
+         | None => true
+         end
+  end.
+
 Definition mismatch_prog (p : prog_case) : bool :=
+  mismatch_modexp p ||
   if p_rej (pc_nib p) || (pc_used_pre p <? 0) then false
   else negb (p_gas (pc_nib p) =? pc_used_pre p - gas_to_refund (pc_quot p) (pc_refund p) (pc_used_pre p)).
 
@@ -145,7 +163,10 @@ Definition mk_case (as_ : list addr) (ks : list key) (txs : list (list op)) (n g
 Definition mk_pobs (rej : bool) (gas err : Z) (ret logs : list Z) (st : list arow) : prog_obs :=
   {| p_rej := rej; p_gas := gas; p_err := err; p_ret := ret; p_logs := logs; p_state := st |}.
 Definition mk_prog (quot refund used_pre : Z) (n g : prog_obs) : case :=
-  CProg {| pc_quot := quot; pc_refund := refund; pc_used_pre := used_pre; pc_nib := n; pc_geth := g |}.
+  CProg {| pc_quot := quot; pc_refund := refund; pc_used_pre := used_pre; pc_nib := n; pc_geth := g; pc_modexp := None |}.
+Definition mk_prog_modexp (quot refund used_pre : Z) (n g : prog_obs) (intr bl el ml hb : Z) : case :=
+  CProg {| pc_quot := quot; pc_refund := refund; pc_used_pre := used_pre; pc_nib := n; pc_geth := g;
+           pc_modexp := Some (intr, bl, el, ml, hb) |}.
 Definition mk_hdr (from nonce gas base tip cap value : Z) (create : bool) (nz z al_addrs al_keys used : Z) : msg :=
   {| m_from := from; m_nonce := nonce; m_gas := gas; m_base := base; m_tip := tip; m_cap := cap; m_value := value;
      m_create := create; m_nz := nz; m_z := z; m_al_addrs := al_addrs; m_al_keys := al_keys;
